@@ -11,7 +11,7 @@ package quicutils
 //@ func (Locator).Len
 //@   pure
 //@   trusted
-//@   ensures result >= 0 && result <= 4611686018427387904
+//@   ensures result >= 0 && result <= 1152921504606846976
 
 //@ func (Locator).Range
 //@   trusted
